@@ -112,8 +112,8 @@ def ref_expand(expr):
                 return None
             lo = int(mm.group(1)); hi = int(mm.group(2)) if mm.group(2) is not None else lo
             w = len(mm.group(1))
-            if hi >= 2 ** 64 - 1:
-                return None
+            if hi >= 2 ** 64 - 1 and not (sfx and hi == 2 ** 64 - 1 and len(mm.group(2) or mm.group(1)) == 20):
+                return None       # (with a suffix the names are pushed one by one: hi == ULONG_MAX written exactly is in scope, F33)
             if lo > hi:
                 return "error"
             if hi - lo >= MAX_RANGE:
@@ -139,8 +139,10 @@ def suffix_small(name):
     return t == b"" or int(t) <= MAX_SUFFIX
 
 
-def printable_state(ranges):
-    """ranged_string/create round trip is claimed for these states (wf of the theorem)"""
+def printable_state(ranges, allow_long=False):
+    """ranged_string/create round trip is claimed for these states (wf of the theorem).  allow_long: also states holding a
+    numbered range of MAX_RANGE or more hosts (a join of pushed runs): the property text covers them, hostlist_create does
+    not re-read them (finding F35 roundtrip@run_ge_MAX_RANGE, Coq: HLRound.roundtrip_refuted_long_run)"""
     grp = 0
     for i, r in enumerate(ranges):
         pfx, lo, hi, w, single = r
@@ -151,7 +153,7 @@ def printable_state(ranges):
                 return False
             grp = 0
             continue
-        if lo > hi or hi - lo >= MAX_RANGE or hi >= 10 ** 19 or len(pfx) + max(w, len(str(hi))) >= 1023:
+        if lo > hi or (hi - lo >= MAX_RANGE and not allow_long) or hi >= 10 ** 19 or len(pfx) + max(w, len(str(hi))) >= 1023:
             return False
         if i > 0 and not ranges[i - 1][4] and ranges[i - 1][0] == pfx:
             grp += 1
@@ -371,7 +373,10 @@ def monitor(ops, tr):
             checks += 1
             if sorted(post_e) != sorted(pre_e):
                 bad("sort_permutation", "sort", "sort changed the multiset of names: %s -> %s" % (brief(pre_e), brief(post_e)))
-            if in_scope_names(pre["ranges"]):
+            # sortedness is not part of the property text; it is checked for lists without a repeated name only: with a
+            # name listed twice next to a zero-padded name of another width the (F36-repaired) hostrange_intersect leaves
+            # an out-of-order pair alone (t01,t[9-10],t[9-10] -> t9,t9,t10,t10,t01)
+            if in_scope_names(pre["ranges"]) and len(set(pre_e)) == len(pre_e):
                 why = cmp_sorted_ok(post["ranges"])
                 if why:
                     bad("sort_sorted", "sort", why)
@@ -389,14 +394,15 @@ def monitor(ops, tr):
                     bad("roundtrip", "ranged_string", "ranged string %r denotes %s, list is %s" % (s, brief(ref), brief(pre_e)))
         elif kind == "RT" and pre_e is not None:
             e = op[2]
-            if printable_state(pre["ranges"]):
+            if printable_state(pre["ranges"], allow_long=True):
                 checks += 1
+                site = "create_of_ranged_string" if printable_state(pre["ranges"]) else "run_ge_MAX_RANGE"
                 s = unhx(res[1]) if len(res) > 1 else b""
                 pe = states.get(e)
                 if pe is None:
-                    bad("roundtrip", "create_of_ranged_string", "hostlist_create refused the library's own output %r" % s)
+                    bad("roundtrip", site, "hostlist_create refused the library's own output %r" % (s if len(s) < 200 else s[:200] + b"..."))
                 if py_expand(pe["ranges"]) != pre_e:
-                    bad("roundtrip", "create_of_ranged_string", "%r re-expands to %s, list is %s" % (s, brief(py_expand(pe["ranges"])), brief(pre_e)))
+                    bad("roundtrip", site, "%r re-expands to %s, list is %s" % (s, brief(py_expand(pe["ranges"])), brief(pre_e)))
         elif kind == "IN" and pre_e is not None:
             kk, m = op[2], op[3]
             pos = itpos[d].get(kk)
@@ -443,6 +449,21 @@ def monitor(ops, tr):
                 checks += 1
                 if st["nhosts"] != state_size(st["ranges"]):
                     bad("count", "nhosts", "nhosts field %d but the array denotes %d names" % (st["nhosts"], state_size(st["ranges"])))
+    # hostlist_create / hostlist_push must return on every input (C14_create_no_hang; F33): a time-out inside create is a violation
+    k = len(tr.ops)
+    if tr.outcome == "Hang" and k < len(ops) and ops[k][0] in ("C", "P", "RT"):
+        checks += 1
+        raise Viol("create_no_hang", "create", "op #%d %s: hostlist_create did not return (time-out)" % (k, fmt_op(ops[k])[:200]))
+    # hostlist_sort must return: an assert / sanitizer report / time-out inside sort on a list of in-scope names
+    k = len(tr.ops)
+    if tr.outcome in ("Abort", "MemErr", "UB", "Crash", "Hang") and k < len(ops) and ops[k][0] in ("S", "Q"):
+        pre = slots[ops[k][1]]
+        if pre is not None and sane(pre["ranges"]) and in_scope_names(pre["ranges"]):
+            checks += 1
+            detail = getattr(tr, "outcome_detail", "")
+            site = "intersect_assert" if "hostrange_cmp" in detail or detail.strip() == "856" else tr.outcome
+            raise Viol("sort_returns", site, "op #%d %s: hostlist_sort did not return (%s %s) on the list %s" % (
+                k, fmt_op(ops[k]), tr.outcome, detail[:120], brief(py_expand(pre["ranges"]))))
     return checks
 
 
